@@ -32,16 +32,27 @@ def prefixes(tier):
 def build_gateway(in_levels, out_levels, raising=False, persistence_file=None, flavour="sync"):
     from mysensors import gateway_mqtt
     pubs, subs, handed = [], [], []
+    # what broker clients raise: with a message, without any argument, with several, not a RuntimeError at all
+    excs = [lambda: RuntimeError("callback raises"), TimeoutError, lambda: ConnectionError(104, "reset"), lambda: KeyError("mid"),
+            lambda: ValueError()]
+    ctl = {"n": 0, "failing": raising == "start"}
+
+    def boom():
+        ctl["n"] += 1
+        raise excs[ctl["n"] % len(excs)]()
 
     def pub(topic, payload, qos, retain):
         pubs.append((topic, payload, qos, retain))
-        if raising:
-            raise RuntimeError("pub raises")
+        if raising is True:
+            boom()
 
     def sub(topic, callback, qos):
+        if ctl["failing"]:
+            boom()                      # the broker client is not connected yet: this subscription does not exist
         subs.append((topic, qos))
-        if raising:
-            raise RuntimeError("sub raises")
+        if raising is True:
+            boom()
+    build_gateway.ctl = ctl
     kw = {"protocol_version": "2.2"}
     if persistence_file:
         kw.update(persistence=True, persistence_file=persistence_file)
@@ -62,8 +73,8 @@ def run(tier):
     pref = prefixes(tier)
     hvals = ["0", "1", "2", "255", "17", "254"]
     # ---- publish + receive back (round trip) and foreign topics
-    for inp in pref:
-        gw, pubs, subs, _ = build_gateway(inp, inp)
+    for pi, inp in enumerate(pref):
+        gw, pubs, subs, _ = build_gateway(inp, inp, raising=(pi % 4 == 3))
         handed = []
         gw.tasks.add_job = lambda func, *args, handed=handed: handed.append(args[0])
         tr = gw.tasks.transport
@@ -134,7 +145,7 @@ def run(tier):
     n_hist = 60 if tier == "quick" else 600
     for i in range(n_hist):
         inp = rng.choice(pref)
-        raising = i % 4 == 0
+        raising = True if i % 4 == 0 else "start" if i % 4 == 2 else False
         flavour = "sync" if i % 3 else "async"
         pfile = os.path.join(wd, f"mq{i}.json") if i % 2 == 0 else None
         if pfile:
@@ -144,7 +155,17 @@ def run(tier):
                 g0.logic(ln)
             g0.tasks.persistence.save_sensors()
         gw, pubs, subs, _ = build_gateway(inp, inp, raising=raising, persistence_file=pfile, flavour=flavour)
+        ctl = build_gateway.ctl
         pump_dead = 0
+        if not pfile and i % 5 in (1, 3):
+            # the application registers nodes it knows about before the gateway is started
+            for nd in rng.sample([1, 2, 7, 200, 254], rng.randint(1, 3)):
+                gw.add_sensor(nd)
+        before = set()
+
+        def cover():
+            kids = sorted([str(n), str(c)] for n, s_ in gw.sensors.items() for c in s_.children if (n, c) not in before)
+            return [inp, sorted({k[0] for k in kids}), kids, [t.split("/") for t, _ in subs]]
         try:
             if flavour == "sync":
                 if pfile:
@@ -157,24 +178,30 @@ def run(tier):
                     loop.run_until_complete(gw.tasks.persistence and _async_load(gw))
                 loop.run_until_complete(gw.tasks.transport.connect())
                 loop.close()
+            if ctl["failing"]:
+                # every subscription asked for at start failed (the broker client was not connected yet); nothing came in
+                # meanwhile.  Once the client is connected the application starts the transport again.
+                ctl["failing"] = False
+                if flavour == "sync":
+                    gw.tasks.transport.connect()
+                else:
+                    loop = asyncio.new_event_loop()
+                    loop.run_until_complete(gw.tasks.transport.connect())
+                    loop.close()
             for ln in _pres_lines(rng):
                 gw.tasks.add_job(gw.logic, ln)
                 if flavour == "sync":
                     while gw.tasks.queue:
                         gw.tasks.transport.send(gw.tasks.run_job())
                 # the cover must hold after EVERY step, not only at the end of the history
-                S.append([inp, sorted(str(n) for n, s_ in gw.sensors.items() if s_.children),
-                          sorted([str(n), str(c)] for n, s_ in gw.sensors.items() for c in s_.children),
-                          [t.split("/") for t, _ in subs]])
+                S.append(cover())
         except Exception:  # pylint: disable=broad-except
             pump_dead = 1
-        nodes = sorted(str(n) for n, s in gw.sensors.items() if s.children)
-        kids = sorted([str(n), str(c)] for n, s in gw.sensors.items() for c in s.children)
-        sublevels = [t.split("/") for t, _ in subs]
+        _, nodes, kids, sublevels = cover()
         if pump_dead:
             sublevels = []
         S.append([inp, nodes, kids, sublevels])
-        if pfile and flavour == "sync" and not pump_dead:
+        if pfile and flavour == "sync" and not pump_dead and raising != "start":
             # the MQTT client lost its session (clean-session reconnect): the application starts the gateway again
             del subs[:]
             try:
